@@ -126,11 +126,19 @@ package standard
 
 //@ func (*Store).BatchStore
 //@ requires s != nil
-//@ modifies db
+//@ modifies db, wbuf
 //@ ensures [written] result == nil ==> len(keys) == len(values) && len(keys) > 0 && (forall i int :: 0 <= i && i < len(keys) && (forall j int :: i < j && j < len(keys) ==> bytes(keys[j]) != bytes(keys[i])) ==> bytes(keys[i]) in db && db[bytes(keys[i])] == bytes(values[i]))
 //@ ensures [frame] forall k Bytes :: (forall i int :: 0 <= i && i < len(keys) ==> bytes(keys[i]) != k) ==> ((k in db) <==> (k in old(db))) && db[k] == old(db)[k]
 //@ ensures [partial] result != nil ==> (forall k Bytes :: (((k in db) <==> (k in old(db))) && db[k] == old(db)[k]) || (k in db && (exists i int :: 0 <= i && i < len(keys) && i < len(values) && bytes(keys[i]) == k && db[k] == bytes(values[i]))))
 //@ ensures [ok] store_ok && len(keys) == len(values) && len(keys) > 0 && (forall i int :: 0 <= i && i < len(keys) ==> len(keys[i]) > 0 && len(values[i]) > 0) ==> result == nil
+//@ loop #1
+//@ invariant [range] 0 <= _n && _n <= len(keys) && len(keys) == len(values)
+//@ invariant [nonempty] forall j int :: 0 <= j && j < _n ==> len(keys[j]) > 0 && len(values[j]) > 0
+//@ loop #2
+//@ invariant [range] 0 <= _n && _n <= len(keys) && len(keys) == len(values) && len(keys) > 0 && db == old(db)
+//@ invariant [nonempty] forall j int :: 0 <= j && j < len(keys) ==> len(keys[j]) > 0 && len(values[j]) > 0
+//@ invariant [dom] forall k Bytes :: k in wbuf ==> (exists j int :: 0 <= j && j < _n && bytes(keys[j]) == k && wbuf[k] == bytes(values[j]))
+//@ invariant [last] forall j int :: 0 <= j && j < _n && (forall j2 int :: j < j2 && j2 < _n ==> bytes(keys[j2]) != bytes(keys[j])) ==> bytes(keys[j]) in wbuf && wbuf[bytes(keys[j])] == bytes(values[j])
 
 //@ func (*Service).fetchSignBeaconAttestationStates
 //@ requires s != nil && s.store != nil
